@@ -403,9 +403,20 @@ def getattr_(it, base, attr, node, fr):
         # e.g. series.str.replace -> Method(Method(series,'str'),'replace')
         return Method(base, attr)
     if isinstance(base, Unk):
+        if attr == "shape" and getattr(base, "rank", None) is not None:
+            nm = tm.show(base.term)
+            a_ = Arr([sym(f"{nm}.n{k}") for k in range(base.rank)], 1)
+            a_.shape_of = base
+            return a_
         if attr in ("shape",):
             u = Unk(call(".shape", base.term))
             u.shape_of = base
+            return u
+        if attr == "T":
+            u = Unk(T("transpose", base.term), space=base.space)
+            for k_ in ("is_mat", "is_matrix", "rot"):
+                if hasattr(base, k_):
+                    setattr(u, k_, getattr(base, k_))
             return u
         if attr in ("loc", "iloc"):
             return Indexer(base, attr)
@@ -963,6 +974,16 @@ def setitem(it, obj, idx, value, node, fr):
         except NotConst:
             it.record("store", "dict-dynamic", [obj, idx, value], {}, node)
         return
+    if isinstance(obj, Unk) and getattr(obj, "is_mat", False):
+        spec = _const_index(idx)
+        tgt = node.targets[0] if isinstance(node, ast.Assign) else getattr(node, "target", None)
+        if spec is not None and isinstance(tgt, ast.Subscript) and isinstance(tgt.value, ast.Name):
+            u = Unk(T("setblock", obj.term, const(spec), to_term(value)))
+            u.is_mat = True
+            fr.env[tgt.value.id] = u
+            it.record("store", "matrix-block", [obj, idx, value], {}, node)
+            return
+        raise Unsupported("store into a small matrix with a non-literal index", node)
     if isinstance(obj, (Val, Unk)):
         # masked / positional store into an element-wise value held in a variable: rewrite the variable
         it.record("store", "elementwise", [obj, idx, value], {}, node)
@@ -1003,6 +1024,30 @@ def setitem(it, obj, idx, value, node, fr):
         it.record("store", "obj", [obj, idx, value], {}, node)
         return
     raise Unsupported(f"store into {type(obj).__name__}", node)
+
+
+def _const_index(idx):
+    """python index object (ints / slices, possibly a tuple) for a literal subscript, else None"""
+    def one(x):
+        if isinstance(x, SliceV):
+            vals = []
+            for y in (x.lower, x.upper, x.step):
+                if y is None:
+                    vals.append(None)
+                elif is_pyconst(y) and (pyval(y) is None or isinstance(pyval(y), int)):
+                    vals.append(pyval(y))
+                else:
+                    raise NotConst("slice bound")
+            return slice(*vals)
+        if is_pyconst(x) and isinstance(pyval(x), int):
+            return pyval(x)
+        raise NotConst("index")
+    try:
+        if isinstance(idx, Seq) and idx.kind == "tuple":
+            return tuple(one(x) for x in idx.items)
+        return one(idx)
+    except NotConst:
+        return None
 
 
 def arr_setitem(it, a, idx, value, node):
